@@ -192,6 +192,32 @@ theorem C11_hc_acyclic (s : ScoreTab) (o : HCOpts) : ∀ (fuel : Nat) (st : HCSt
             trace := st.trace ++ [(b.1, b.2)], tie := st.tie || hasTie (legalOps s o st.tabu st.g) } h1 h2
         exact ⟨i1, i2, by rw [i3]; exact h3⟩
 
+/-- **iteration bound and tabu length**: the loop applies at most `max_iter` operations (the trace grows by at most
+    the iteration budget) and the tabu list never holds more than `tabu_length` entries - for every score table,
+    option set and start state -/
+theorem C11_hc_budget (s : ScoreTab) (o : HCOpts) : ∀ (fuel : Nat) (st : HCState),
+    st.tabu.length ≤ o.tabuLen →
+    (hcLoop s o fuel st).trace.length ≤ st.trace.length + fuel ∧ (hcLoop s o fuel st).tabu.length ≤ o.tabuLen
+  | 0, st, ht => ⟨by simp [hcLoop], by simpa [hcLoop] using ht⟩
+  | fuel+1, st, ht => by
+    simp only [hcLoop]
+    cases hb : bestOp (legalOps s o st.tabu st.g) with
+    | none => exact ⟨by simp, ht⟩
+    | some b =>
+      simp only
+      split
+      · exact ⟨by simp, ht⟩
+      · have hpush : (tabuPush o.tabuLen st.tabu (tabuEntry b.1)).length ≤ o.tabuLen := by
+          unfold tabuPush
+          simp only [List.length_drop, List.length_append, List.length_cons, List.length_nil]
+          omega
+        obtain ⟨i1, i2⟩ := C11_hc_budget s o fuel
+          { g := applyOp st.g b.1, tabu := tabuPush o.tabuLen st.tabu (tabuEntry b.1),
+            trace := st.trace ++ [(b.1, b.2)], tie := st.tie || hasTie (legalOps s o st.tabu st.g) } hpush
+        refine ⟨?_, i2⟩
+        simp only [List.length_append, List.length_cons, List.length_nil] at i1
+        omega
+
 /-- when the loop stops before using up its iterations, no candidate operation would improve
     the score by epsilon or more (a local optimum w.r.t. the final tabu list) -/
 theorem C11_loop_stops_below_eps (s : ScoreTab) (o : HCOpts) : ∀ (fuel : Nat) (st : HCState),
